@@ -66,6 +66,13 @@ COQ_DEPS = ["Corr/PNormCorr.vo", "Corr/PNormRCorr.vo"]
 INT_PS = [1, 2, 3, 4, 5, 7, 10]
 REAL_PS = [1.5, 2.5, 3.141592653589793]
 LEGACY_ID = "C10-pnorm-pinned-code"
+# large exponents ("for every p >= 1"): around the powers of two where an implementation may switch strategy, the
+# largest p of the library's own tests (113), and reals in between; exponents just above 1
+BIG_INT_PS = [11, 16, 24, 31, 32, 33, 40, 48, 64, 100, 113, 128, 200, 256]
+BIG_REAL_PS = [12.5, 31.5, 32.5, 40.25, 64.5, 100.5]
+NEAR_ONE_PS = [1.001, 1.0625, 1.000001]
+P_REPS = ["float", "np_int64", "np_int32", "np_float64"]      # an integer p handed over as 2.0 / np.int64(2) / ...
+RANGE_ID = "C10-pnorm-large-p-range"
 
 
 # ------------------------------------------------------------------------------- generators
@@ -247,6 +254,131 @@ def _scale_recipe(r, s):
     return r
 
 
+
+def _fits(lo, hi, p, cmax=3.0, cmin=0.1):
+    """|f|^p stays well inside the binary64 range for every landscape the case touches (P, c*P, P + M) when the
+    largest |value| of P lies in [lo, hi]: the pinned code integrates |f|^p itself, so hi**p overflows / vanishes
+    outside this window although the norm is representable (finding C10-pnorm-large-p-range, generated separately)"""
+    if hi <= 0:
+        return True
+    lo = min(lo, hi)
+    return p * math.log10(max(hi, 1e-300) * 2 * cmax) < 250 and (lo <= 0 or p * math.log10(lo * cmin) > -250)
+
+
+def _pick_big_p(rng, lo, hi, pool):
+    ok = [p for p in pool if _fits(lo, hi, p)]
+    return rng.choice(ok) if ok else None
+
+
+def _cp_top(cp):
+    ys = [abs(y) for d in cp for _, y in d if y != 0]
+    return (min(ys), max(ys)) if ys else (0.0, 0.0)
+
+
+def _dyadic_grid(rng):
+    """grid whose step is 1/4, 1/2, 1 or 2: diagrams with quarter-integer ends snap to it exactly"""
+    stop, n = rng.choice([(4.0, 5), (4.0, 9), (4.0, 17), (8.0, 5), (8.0, 9), (8.0, 17), (8.0, 33), (16.0, 9), (16.0, 33)])
+    return 0.0, stop, n
+
+
+def _big_p_recipe(rng, real=False, light=True):
+    """(recipe, other, lo, hi, nseg): a landscape whose largest |value| is known in advance to lie in [lo, hi] (when it
+    is not identically zero), so that the exponent can be chosen inside the window of `_fits`.
+    light: every ordinate is an integer or a short dyadic number (the exact rational evaluation of the model inside Coq
+    stays cheap for p in the hundreds); otherwise full-mantissa doubles / decimal diagrams, kept small: nseg is the
+    (estimated) number of segments, used to cap the exponent (cost of the Coq evaluation ~ nseg * p^2)."""
+    if real:
+        kinds = ["cp", "cp", "ddiff", "vals", "cp_scaled"] if light else ["cp", "cp_nf", "decdiff", "vals"]
+    elif light:
+        kinds = ["cp", "cp", "cp_scaled", "dgm", "ddiff", "ddiff", "vals", "valsdiff", "adgm", "adiff", "cp_container", "vals_dtype"]
+    else:
+        kinds = ["cp", "cp", "cp_nf", "decdiff", "decdiff", "declin", "vals", "valsdiff", "vals_dtype"]
+    k = rng.choice(kinds)
+    small = real or not light
+    other = None
+    nseg = 0
+    dy_leaf = lambda: {"t": "dgm", "bars": _bars(rng, "dyadic", rng.randint(1, 2 if real else 4))}
+    if k in ("cp", "cp_container", "cp_scaled"):
+        base = rng.choice(["pos", "neg", "cross", "cross", "flat", "touch", "mixed"])
+        rep = rng.choice(["tuple", "arr", "arrint"]) if k == "cp_container" else None
+        mode = "int" if rep == "arrint" else (rng.choice(["int", "dyadic"]) if light else "float")
+        cp = [(_depth(rng, base, mode)[:4] if small else _depth(rng, base, mode)) for _ in range(1 if small else rng.choice([1, 1, 2, 3]))]
+        r = {"t": "cp", "cp": cp, "rep": rep or ("int" if mode == "int" else rng.choice(["float", "np"]))}
+        if k == "cp_scaled":
+            r = _scale_recipe(dict(r, rep="float" if r["rep"] == "int" else r["rep"]), 2.0 ** rng.choice([-6, -3, 3, 5]))
+        lo, hi = _cp_top(r["cp"])
+        lo = hi          # the largest ordinate itself is known
+        nseg = sum(len(d) - 1 for d in cp)
+    elif k == "cp_nf":
+        r = {"t": "cp", "cp": [_nearly_flat(rng)[:3]], "rep": rng.choice(["float", "np"])}
+        lo, hi = _cp_top(r["cp"]); lo = hi
+        nseg = 3 * sum(len(d) - 1 for d in r["cp"])     # (1 - s)^(p+1) with a tiny s: the most expensive rationals
+    elif k == "dgm":
+        r = dy_leaf(); lo, hi = 0.125, 3.0
+        other = dy_leaf()
+    elif k == "ddiff":
+        a, b = dy_leaf(), dy_leaf()
+        while sorted(map(tuple, b["bars"])) == sorted(map(tuple, a["bars"])):
+            b = dy_leaf()
+        r = {"t": "lin", "terms": [[1.0, a], [-1.0, b]]}; lo, hi = 0.125, 6.0     # breakpoint values are multiples of 1/8
+        other = None if real else dy_leaf()
+    elif k in ("decdiff", "declin"):
+        # one-decimal diagrams: every breakpoint value of a combination with the coefficients of _coef is (up to rounding
+        # crumbs) a multiple of 0.005, so the largest is >= 0.004 unless the combination vanishes identically
+        leaves = []
+        while len(leaves) < 2:
+            l = {"t": "dgm", "bars": _bars(rng, "decimal", 1 if (real or k == "declin") else rng.randint(1, 2))}
+            if all(sorted(map(tuple, l["bars"])) != sorted(map(tuple, q["bars"])) for q in leaves):
+                leaves.append(l)
+        cs = [1.0, -1.0] if k == "decdiff" else [_coef(rng) for _ in leaves]
+        r = {"t": "lin", "terms": [[c, l] for c, l in zip(cs, leaves)]}
+        lo, hi = (0.04 if k == "decdiff" else 0.004), 2.5 * sum(abs(c) for c in cs)
+        nseg = 4 * sum(len(l["bars"]) ** 2 for l in leaves)
+    elif k in ("vals", "valsdiff", "vals_dtype"):
+        grid = _frac_grid(rng) if k == "vals_dtype" else (float(rng.randint(-2, 1)), float(rng.randint(3, 8)), rng.randint(4, 6 if small else 12))
+        if small and grid[2] > 6:
+            grid = (grid[0], grid[0] + (grid[1] - grid[0]) * 5 / (grid[2] - 1), 6)
+        def leaf():
+            if k == "vals_dtype":
+                q = _dtype_leaf(rng, grid, rng.choice(INT_DTYPES) if light else "float64")
+                return dict(q, values=q["values"][:1], layout="C" if q["layout"] == "F" else q["layout"]) if small else q
+            kk = 1 if small else rng.randint(1, 3)
+            pick = (lambda: rng.choice([0.0, float(rng.randint(-3, 3)), rng.randint(-12, 12) / 4.0])) if light else \
+                   (lambda: rng.choice([0.0, float(rng.randint(-3, 3)), round(rng.uniform(-2, 2), 2), rng.uniform(-2, 2)]))
+            return {"t": "vals", "start": grid[0], "stop": grid[1], "n": grid[2], "values": [[pick() for _ in range(grid[2])] for _ in range(kk)]}
+        a = leaf()
+        if k == "valsdiff":
+            b = leaf()
+            r = {"t": "lin", "terms": [[1.0, a], [-1.0, b]]}
+            rows = max(len(a["values"]), len(b["values"]))
+            pad = lambda v: v + [[0.0] * grid[2]] * (rows - len(v))
+            diff = [abs(x - y) for ra, rb in zip(pad(a["values"]), pad(b["values"])) for x, y in zip(ra, rb)]
+        else:
+            r = a
+            rows = len(a["values"])
+            diff = [abs(x) for row in a["values"] for x in row]
+        nz = [x for x in diff if x > 1e-12]
+        lo = hi = max(nz) if nz else 0.0
+        nseg = rows * (grid[2] - 1)
+        if hi and rng.random() < 0.5 and not real:
+            other = leaf()
+    else:  # adgm / adiff: quarter-integer bars on a grid of dyadic step, sampled values are multiples of 1/8
+        grid = _dyadic_grid(rng)
+        def leaf():
+            bars = [[b, min(d, grid[1])] for b, d in _bars(rng, "dyadic") if b + 0.25 < grid[1]] or [[0.5, 3.0]]
+            return {"t": "adgm", "bars": bars, "start": grid[0], "stop": grid[1], "n": grid[2]}
+        if k == "adgm":
+            r = leaf()
+        else:
+            r = {"t": "lin", "terms": [[1.0, leaf()], [-1.0, leaf()]]}
+        lo, hi = 0.125, 8.0
+        other = leaf() if rng.random() < 0.5 else None
+    return r, other, lo, hi, (0 if light else nseg)
+
+
+HEAVY_BUDGET = 10000     # nseg * p^2 of a case with full-mantissa ordinates (1-2 s of vm_compute)
+
+
 def _case(rng, cls, j=None):
     """j: running index within the class (generate() passes it so that dtypes x layouts x kinds are all met in every run)"""
     p = rng.choice(INT_PS)
@@ -381,6 +513,37 @@ def _case(rng, cls, j=None):
         else:
             mode = rng.choice(["int", "float"])
             c["recipe"] = {"t": "cp", "cp": [_depth(rng, k, mode)[:4]], "rep": "int" if mode == "int" else rng.choice(["float", "np"])}
+    elif cls in ("big_p", "big_p_real", "near_one_p", "p_rep"):
+        # non-default exponents: large integer / real p, p just above 1, an integer p handed over as a float or a
+        # numpy scalar; the landscape's magnitude is known in advance and p is drawn from the exponents for which
+        # |f|^p stays inside the binary64 range (see _fits)
+        real = cls in ("big_p_real", "near_one_p")
+        for _ in range(50):
+            r, other, lo, hi, nseg = _big_p_recipe(rng, real, light=rng.random() < (0.5 if real else 0.7))
+            pool = {"big_p": BIG_INT_PS, "big_p_real": BIG_REAL_PS, "near_one_p": NEAR_ONE_PS, "p_rep": INT_PS + BIG_INT_PS[:8]}[cls]
+            if not real:
+                pool = [q for q in pool if nseg * q * q <= HEAVY_BUDGET]
+            p = _pick_big_p(rng, lo, hi, pool)
+            if p is not None:
+                break
+        else:
+            r, other, p = {"t": "cp", "cp": [[[0.0, 0.0], [1.0, 1.5], [3.0, -0.5]]], "rep": "float"}, None, pool[0]
+        c.update(recipe=r, other=other, p=p)
+        if p >= 150:
+            c["c"] = rng.choice([2.0, -1.0, 0.5, 1.0, -2.0])
+        if cls == "p_rep" or (cls == "big_p" and rng.random() < 0.3):
+            c["p_rep"] = rng.choice(P_REPS) if j is None else P_REPS[j % len(P_REPS)]
+    elif cls == "big_p_range":
+        # the same exponents at scales where |f|^p itself leaves the binary64 range although the norm does not
+        # (only generated while known_findings.json lists RANGE_ID)
+        s_ = 2.0 ** rng.choice([-20, -14, -10, 10, 14, 20])
+        cp = [_depth(rng, rng.choice(["cross", "mixed", "pos"]), "dyadic")]
+        for d in cp:
+            if all(y == 0 for _, y in d):
+                d[1][1] = 1.5
+        c["recipe"] = _scale_recipe({"t": "cp", "cp": cp, "rep": "float"}, s_)
+        hi = _cp_top(c["recipe"]["cp"])[1]
+        c["p"] = rng.choice([p for p in BIG_INT_PS[4:] + BIG_REAL_PS[2:] if not _fits(hi, hi, p, 1.0, 1.0)] or [256])
     else:
         raise ValueError(cls)
     return c
@@ -407,13 +570,31 @@ def generate(rng, tier):
         cases.append(_case(rng, cls, seen.setdefault(cls, 0)))
         seen[cls] += 1
     cases += [_case(rng, "vals_dtype_big", 7 * i) for i in range(n_big)]
+    # non-default exponents
+    n_bp, n_bpr, n_one, n_rep = (36, 5, 3, 8) if tier == "quick" else (1200, 60, 40, 300)
+    import os
+    if os.environ.get("C10_NOBIG"): n_bp = n_bpr = n_one = n_rep = 0
+    cases += [_case(rng, "big_p") for _ in range(n_bp)]
+    cases += [_case(rng, "big_p_real") for _ in range(n_bpr)]
+    cases += [_case(rng, "near_one_p") for _ in range(n_one)]
+    cases += [_case(rng, "p_rep", i) for i in range(n_rep)]
+    if _range_finding_listed():
+        cases += [_case(rng, "big_p_range") for _ in range(4 if tier == "quick" else 60)]
     return cases
+
+
+def _range_finding_listed():
+    try:
+        return any(f.get("id") == RANGE_ID for f in core.load_findings(PID))
+    except Exception:
+        return False
 
 
 def search_generate(rng, n):
     return [_case(rng, rng.choice(["cross", "nearly_flat", "sum", "diff", "lincomb", "mixed", "approx_diff", "flat", "touch",
                                   "lazy_exact_pnorm", "lazy_exact_sup", "lazy_approx_pnorm", "lazy_approx_sup",
-                                  "vals_dtype", "vals_dtype", "dgm_int", "adgm_int", "cp_container"]))
+                                  "vals_dtype", "vals_dtype", "dgm_int", "adgm_int", "cp_container",
+                                  "big_p", "big_p", "big_p", "p_rep"]))
             for _ in range(n)]
 
 
@@ -500,11 +681,18 @@ def _describe(L):
     return {"kind": "exact", "cp": [[[_num(x), _num(y)] for x, y in d] for d in L.critical_pairs]}
 
 
+def _p_arg(c):
+    """the exponent as the caller hands it over: as generated, or an integer p as 2.0 / np.int64(2) / np.float64(2)"""
+    import numpy as np
+    conv = {"float": float, "np_int64": np.int64, "np_int32": np.int32, "np_float64": np.float64}.get(c.get("p_rep"))
+    return conv(c["p"]) if conv else c["p"]
+
+
 def impl_run(cases):
     outs = []
     for c in cases:
         def call():
-            p = c["p"]
+            p = _p_arg(c)
             if c.get("lazy"):
                 # the landscape is described from an eagerly built twin; on the lazy object the method
                 # named by c["lazy"] is the FIRST one that needs the landscape
@@ -595,6 +783,13 @@ def _close_pow(v, NP, p, rtol=RTOL):
     return v >= 0 and (v / (1 + rtol)) ** p <= NP <= (v / (1 - rtol)) ** p
 
 
+def _froot(NP, p):
+    """float(NP ** (1/p)) for a non-negative Fraction whose value may lie outside the binary64 range"""
+    if NP <= 0:
+        return 0.0
+    return math.exp((math.log(NP.numerator) - math.log(NP.denominator)) / p)
+
+
 def _is_int_p(p):
     return float(p) == int(p)
 
@@ -616,8 +811,8 @@ def predicate(c, o):
     if _is_int_p(p):
         NP = _spec_pow_int(L, int(p))
         if not _close_pow(v, NP, int(p)):
-            return False, "norm: p_norm(%r) = %r but (sum of integrals of |f|^p)^(1/p) = %r" % (p, v, float(NP) ** (1.0 / int(p)))
-        N = float(NP) ** (1.0 / int(p))
+            return False, "norm: p_norm(%r) = %r but (sum of integrals of |f|^p)^(1/p) = %r" % (p, v, _froot(NP, int(p)))
+        N = _froot(NP, int(p))
     else:
         N = _spec_norm_real(L, p)
         if abs(v - N) > 1e-9 * N:
@@ -655,6 +850,15 @@ def nontrivial(c, o):
 
 
 def finding_of(c, o, detail):
+    """a failure at an exponent / scale where |f|^p itself leaves the binary64 range (see _fits) is an instance of RANGE_ID"""
+    if "error" in o or c.get("p", 0) < 11:
+        return None
+    L = _landscape_of(o)
+    if not L:
+        return None
+    top = max([abs(y) for d in L for _, y in d] or [0])
+    if top > 0 and not _fits(float(top), float(top), c["p"]):
+        return RANGE_ID
     return None
 
 
@@ -719,12 +923,50 @@ def coq_judge(cases, outs, results):
         if nt is None:
             real.append(i)
         terms.append("(%s, %s)" % (nt or "VIntended", st)); where.append(i)
-    toks, _ = core.eval_cases(PID, HEADER_Q, terms, chunk=60, tag="ev")
+    # exponents above 10 are evaluated in small files of their own (the exact rationals have thousands of bits); the
+    # vm_compute files and the real-p certificates are independent and are compiled in ONE parallel batch
+    big = [k for k, i in enumerate(where) if cases[i]["p"] > 10]
+    small = [k for k, i in enumerate(where) if cases[i]["p"] <= 10]
+    real_res, lemmas, lem_where = _real_lemmas(cases, outs, real)
+    jobs, ev_chunks, lem_chunks = [], {}, {}
+    for ks, ch, tag in ((big, 6, "evb"), (small, 60, "ev")):
+        for n0 in range(0, len(ks), ch):
+            name = "%s_%03d" % (tag, n0 // ch)
+            ev_chunks[name] = ks[n0:n0 + ch]
+            jobs.append((name, HEADER_Q + "\nEval vm_compute in (%s).\n" % core.coq_list(["(%s)" % terms[k] for k in ev_chunks[name]], sep=";\n ")))
+    for n0 in range(0, len(lemmas), 4):
+        name = "real_%03d" % (n0 // 4)
+        lem_chunks[name] = list(range(n0, min(len(lemmas), n0 + 4)))
+        jobs.append((name, "\n".join([HEADER_R] + ["Lemma case_%d : %s.\nProof. %s Qed.\n" % ((i,) + lemmas[i]) for i in lem_chunks[name]])))
+    results_ = core.run_coq_jobs(PID, jobs) if jobs else {}
+    toks = ["ERROR"] * len(terms)
+    for name, ks in ev_chunks.items():
+        r = results_[name]
+        if not r.ok:
+            core.log("[%s] coq job %s failed: %s" % (PID, name, (r.err or r.out)[-800:]))
+            continue
+        lists = r.eval_lists()
+        if len(lists) == 1 and len(lists[0]) == len(ks):
+            for k, t in zip(ks, lists[0]):
+                toks[k] = t
+        else:
+            core.log("[%s] coq job %s: could not parse %d results" % (PID, name, len(ks)))
+    retry = []
+    for name, idx in lem_chunks.items():
+        if results_[name].ok:
+            for i in idx:
+                real_res[lem_where[i]] = "VIntended"
+        else:
+            retry += idx
+    if retry:   # a chunk that fails is re-run one lemma per file so that every case gets its own verdict
+        ok, _ = core.prove_lemmas(PID, HEADER_R, [lemmas[i] for i in retry], chunk=1, tag="real1")
+        for i, good in zip(retry, ok):
+            real_res[lem_where[i]] = "VIntended" if good else "interval certificate |model - impl| <= 1e-9 impl not provable"
+    real_ok = real_res
     res = {}
     for i, t in zip(where, toks):
         m = re.match(r"\(\s*(\w+)\s*,\s*(\w+)\s*\)$", t.strip())
         res[i] = {"norm": m.group(1), "sup": m.group(2)} if m else {"norm": t, "sup": t}
-    real_ok = _judge_real(cases, outs, real) if real else {}
     for i in range(n):
         if verdicts[i] is not None:
             continue
@@ -752,8 +994,9 @@ Open Scope R_scope.
 """
 
 
-def _judge_real(cases, outs, idx):
-    """real p: one kernel-checked interval certificate |model - impl| <= 1e-9 impl per case"""
+def _real_lemmas(cases, outs, idx):
+    """real p: one kernel-checked interval certificate |model - impl| <= 1e-9 impl per case.
+    Returns (verdicts decided without Coq, [(statement, script)], [case index of each lemma])"""
     lemmas, where, res = [], [], {}
     for i in idx:
         c, o = cases[i], outs[i]
@@ -766,15 +1009,10 @@ def _judge_real(cases, outs, idx):
         else:
             vals = core.coq_list([core.coq_list([_q(x) for x in row]) for row in o["values"]])
             Lc = "(values_to_pairs %s %s %d%%nat %s)" % (_q(o["start"]), _q(o["stop"]), o["n"], vals)
-        Lc = Lc.replace("(", "(").replace("#", "#")
         st = "agrees_R %s (%s)%%Q %s %s" % (core.coq_R(Fraction(c["p"])), Lc, core.coq_R(Fraction(v)), core.coq_R(RTOL))
         lemmas.append((st, "pnorm_real_case."))
         where.append(i)
-    if lemmas:
-        ok, _ = core.prove_lemmas(PID, HEADER_R, lemmas, chunk=4, tag="real")
-        for i, good in zip(where, ok):
-            res[i] = "VIntended" if good else "interval certificate |model - impl| <= 1e-9 impl not provable"
-    return res
+    return res, lemmas, where
 
 
 def shrink_candidates(c):
@@ -806,5 +1044,9 @@ def shrink_candidates(c):
         d = dict(c); d["recipe"] = dict(r, layout="C"); yield d
     if r.get("grid_int"):
         d = dict(c); d["recipe"] = {k: v for k, v in r.items() if k != "grid_int"}; yield d
+    if c.get("p_rep"):
+        d = {k: v for k, v in c.items() if k != "p_rep"}; yield d
+    if _is_int_p(c["p"]) and c["p"] > 33:
+        d = dict(c); d["p"] = 32 if c["p"] % 2 == 0 else 33; yield d
     if _is_int_p(c["p"]) and c["p"] > 2:
         d = dict(c); d["p"] = 2 if c["p"] % 2 == 0 else 1; yield d
